@@ -441,3 +441,53 @@ impl Property for P {
         0.1
     }
 }
+
+pub fn decode(data: &[u8]) -> Case {
+    let mut r = crate::fuzzdec::Reader::new(data);
+    let mode = r.u8();
+    if mode & 2 == 2 {
+        let mut spec = crate::fuzzdec::optspec(&mut r, false, true);
+        if spec.algo == Algo::FirstFit {
+            spec.algo = Algo::Optimal(PenSpec::DEFAULT);
+        }
+        spec.width = spec.width.min(200);
+        let prior = r.bool();
+        let par = crate::fuzzdec::text(mode, r.rest()).replace(['\n', '\r'], " ");
+        return Case::Text { par, spec, prior };
+    }
+    let pen = if mode & 4 == 4 {
+        PenSpec::DEFAULT
+    } else {
+        PenSpec {
+            nline: r.u8() as usize * 12,
+            overflow: r.u8() as usize * 24,
+            fraction: 1 + (r.u8() as usize % 8),
+            short_last: r.u8() as usize,
+            hyphen: r.u8() as usize,
+        }
+    };
+    let a = r.u8() as u64 % 31;
+    let b = r.u8() as u64 % 31;
+    let widths = match mode >> 6 {
+        0 => vec![],
+        1 => vec![a],
+        2 => vec![a, b],
+        _ => vec![a, b, b],
+    };
+    let mut frags: Vec<(u64, u64, u64)> = Vec::new();
+    while r.remaining() >= 2 && frags.len() < 60 {
+        let x = r.u8();
+        let y = r.u8();
+        frags.push(((x % 13) as u64, (y % 4) as u64, (y >> 4) as u64));
+    }
+    let last = frags.len().saturating_sub(1);
+    for t in 0..frags.len() {
+        if t < last {
+            let next = frags[t + 1].0;
+            frags[t].2 %= next + 1;
+        } else {
+            frags[t].2 %= 4;
+        }
+    }
+    Case::Frags { frags, widths, pen }
+}
